@@ -133,4 +133,11 @@ CHECKS['C20'] = dict(
          'instruction tables, bogus names) and must equal the names the help lists for that phase; every listed item\'s help page must display (exit 0, stdout, no stderr); builtin '
          'symbols listed <=> usable without definition; in `help htmldoc` every href="#x" has exactly one anchor and no anchor occurs twice.',
     note='Listing formats of the help output are parsed by the harness (first column).')
+CHECKS['C16'] = dict(
+    level='exploration',
+    technique='bounded-exhaustive enumeration of suite hierarchy x verdict assignment x reporter through the real CLI, against a suite reference model (processing order, execution count, OK/ERROR, JUnit counts)',
+    text='10 valid hierarchies (plain names, globs, sub/*.case, one/two sub-suites, depth 2, directory arguments with exactly.suite, sub-suite globs) x all 11^n verdict assignments '
+         'for n<=2 cases (n=3 on the flat hierarchy; thorough: 3 everywhere) x {progress, junit}: action markers give execution count and order, progress lines and final OK/0 vs ERROR/4, '
+         'JUnit tests / failures+errors / failure-or-error children per case; 14 invalid suites x both reporters must give exit 3, INVALID_SUITE and zero executed cases.',
+    note='Found and repaired KF-C16-1 (fix: commit b63314c in /repo). Durations in reporter output are ignored.')
 NOT_APPLICABLE = {}
